@@ -17,6 +17,7 @@ import (
 	"github.com/safing/portbase/log"
 	"github.com/safing/portbase/modules"
 	"github.com/safing/portbase/rng"
+	"github.com/safing/portbase/utils/vhook"
 )
 
 const (
@@ -444,6 +445,7 @@ func updateAPIKeys(_ context.Context, _ interface{}) error {
 		})
 	}
 
+	vhook.At("api.keys.updated")
 	return nil
 }
 
